@@ -132,6 +132,7 @@ pub fn run(tier: Tier) -> i32 {
                         *wt = tail;
                     }
                 }
+                rep.outcome(hash_f64s(&h[..h.len().min(64)]));
                 if h.iter().any(|x| !x.is_finite()) {
                     rep.violation("non-finite", "pulse response contains non-finite samples", rp);
                     return;
